@@ -137,9 +137,10 @@ def stripZeros : List Nat → List Nat
   | 48 :: rest => stripZeros rest
   | s => s
 
-/-- `UBig::from_str_radix_no_sign` -/
+/-- `UBig::from_str_radix_no_sign`: a body without any byte other than `_` (in particular the empty
+    one) has no digits -/
 def parseNoSign (W : Nat) (src : List Nat) (r : Nat) : Except ParseError Nat :=
-  if src = [] then .error .noDigits
+  if src.all (· == 95) then .error .noDigits
   else
     let src := stripZeros src
     if isPow2 r then parsePow2 W r src else parseNonPow2 W r src
@@ -151,16 +152,20 @@ def parseRadix (W : Nat) (signed : Bool) (s : List Nat) (r : Nat) : Except Parse
     let sb := splitSign signed s
     (parseNoSign W sb.2 r).map (applySign sb.1)
 
-/-- `from_str_with_radix_default` for both types, for a *valid* default radix (the code does not
-    check the default radix: see the finding on `from_str_with_radix_default`) -/
+/-- `UBig::from_str_with_radix_prefix_no_sign`: the prefixes select radix 2 / 8 / 16; without a
+    prefix the default radix is validated and used -/
+def parsePrefixNoSign (W : Nat) (src : List Nat) (dflt : Nat) : Except ParseError (Nat × Nat) :=
+  match src with
+  | 48 :: 98 :: bin => (parseNoSign W bin 2).map (fun v => (v, 2))
+  | 48 :: 111 :: oct => (parseNoSign W oct 8).map (fun v => (v, 8))
+  | 48 :: 120 :: hex => (parseNoSign W hex 16).map (fun v => (v, 16))
+  | _ =>
+    if !validRadix dflt then .error .unsupportedRadix
+    else (parseNoSign W src dflt).map (fun v => (v, dflt))
+
+/-- `from_str_with_radix_default` of `UBig` (`signed = false`) and `IBig` (`signed = true`) -/
 def parseDefault (W : Nat) (signed : Bool) (s : List Nat) (dflt : Nat) : Except ParseError (Int × Nat) :=
   let sb := splitSign signed s
-  let rb := splitPrefix dflt sb.2
-  (parseNoSign W rb.2 rb.1).map (fun n => (applySign sb.1 n, rb.1))
-
-/-- the input class on which the code and the documented grammar differ: a non-empty body made of
-    underscores only (possibly after leading zeros were stripped … no: after `0`s there is a digit).
-    `"_"`, `"+__"`, `"0x_"` parse as `0` although they contain no digit. -/
-def underscoreOnly (body : List Nat) : Bool := body != [] && body.all (· == 95)
+  (parsePrefixNoSign W sb.2 dflt).map (fun vr => (applySign sb.1 vr.1, vr.2))
 
 end Dashu.Model.Text
